@@ -7,6 +7,15 @@ Driver for C13.  One case = one history on one runner:
   impl  : {"events": [{"t":"s","c":cid,"now":ns} | {"t":"d","c":cid,"now":ns,"batch":[payload…],"ok":bool,"res":[result…]}, …],
            "rets":   [{"c":cid,"vals":[result…],"err":0|1|2,"cancelled":bool,"heldSame":bool,"held":[result…]}, …]}
 
+`stopped` (per call): 1 = `Runner.Close()` came between the call's look-ups and its return, 2 = the
+runner had been closed before the call started.  After `Close` the worker group still delivers every
+submitted job: those it had not started yet fail without ever reaching the pipeline.  For a call
+with `stopped = 1` these deliveries are added to the history as failed `d` events for the
+predicted batches the pipeline did not see (`addUnseen`); a call with `stopped = 2` submits
+nothing, like a call whose context is done.  `racy` histories (input flag): callers run truly
+concurrently against each other's cache writes, the model is not compared, only the predicate.
+`crashed`: the process died while the history ran.
+
 `vals` is the content of the returned slice right after the call returned; the caller keeps the
 slice, and `held` is its content at the end of the history (`heldSame`: unchanged).  Agreement with
 the model and the Spec predicate are evaluated on BOTH: a result set that is right when handed out
@@ -48,6 +57,7 @@ structure RetIn where
   code : Nat
   cancelled : Bool   -- the caller's context was done when the call returned
   held : List CheckResult   -- content of the returned slice at the end of the history
+  stopped : Nat
 
 def retIn (j : Json) : R RetIn := do
   let code ← natF j "err"
@@ -58,8 +68,9 @@ def retIn (j : Json) : R RetIn := do
   let held ← match fieldD j "heldSame" (.bool true) with
     | .bool true => pure vals
     | _ => listOf checkResult (fieldD j "held" .null)
+  let stopped ← asNat (fieldD j "stopped" (.num 0))
   pure { cid := ← natF j "c", ret := { values := vals, err := code != 0 }, code := code,
-         cancelled := cancelled, held := held }
+         cancelled := cancelled || stopped != 0, held := held, stopped := stopped }
 
 structure St where
   cache : Cache := []
@@ -144,11 +155,38 @@ def step (expire : Nat) (canc : Nat → Bool) : St → List Ev → St
       | none => st.tags
     step expire canc { st with cache := cacheStep expire st.cache (.done cid b o), tags := ts } es
 
+/-- failed deliveries for the predicted batches of a call that the pipeline never saw because the
+runner was closed while they were queued (placed right after the call's `start`; a failure does
+not touch the cache, so the position among the later events is immaterial) -/
+def addUnseen (expire : Nat) (stoppedDuring : Nat → Bool) : Cache → List Ev → List Ev
+  | _, [] => []
+  | c, .start cid now ps :: es =>
+    let bs := batches c now ps
+    let extra : List Ev :=
+      if stoppedDuring cid then
+        match orderOf bs [] (donesOf cid es) with
+        | some order =>
+          ((List.range bs.length).filter (fun i => !order.contains i)).map
+            (fun i => Ev.done cid (bs.getD i []) { doneAt := now, res := none })
+        | none => []
+      else []
+    .start cid now ps :: (extra ++ addUnseen expire stoppedDuring c es)
+  | c, .done cid b o :: es => .done cid b o :: addUnseen expire stoppedDuring (cacheStep expire c (.done cid b o)) es
+
 def handle (input impl : Json) : R Reply := do
+  match fieldD impl "crashed" (.bool false) with
+  | .bool true =>
+    let why := match fieldD impl "crash" (.str "") with | .str s => s | _ => ""
+    return { agree := true, specModel := true, specImpl := false,
+             fail := "the process died while the history ran (a panic on a goroutine of the runner that nothing recovers)",
+             diff := why, nontrivial := true, tags := ["process-died"] }
+  | _ => pure ()
+  let racy := match fieldD input "racy" (.bool false) with | .bool b => b | _ => false
   let expire ← natF input "expire"
   let calls ← listF callIn input "calls"
-  let evs ← listF (evOf calls) impl "events"
+  let evs0 ← listF (evOf calls) impl "events"
   let rets ← listF retIn impl "rets"
+  let evs := addUnseen expire (fun cid => rets.any (fun r => r.cid == cid && r.stopped == 1)) [] evs0
   let canc := fun cid => match rets.find? (fun r => r.cid == cid) with | some r => r.cancelled | none => false
   let st := step expire canc {} evs
   let implRets := rets.map fun r => (r.cid, r.ret, r.cancelled)
@@ -171,9 +209,9 @@ def handle (input impl : Json) : R Reply := do
       else none
   let nStarts := (evs.filter (fun e => match e with | .start _ _ _ => true | _ => false)).length
   let bad := if nStarts != calls.length then s!"{calls.length} calls, {nStarts} start events" :: bad else bad
-  let agree := bad.isEmpty
+  let agree := racy || bad.isEmpty
   let modelRets := st.rets.filterMap fun (cid, m) => m.map fun r => (cid, r, canc cid)
-  let sm := specTrace evs modelRets
+  let sm := racy || specTrace evs modelRets
   let heldRets := rets.map fun r => (r.cid, ({ r.ret with values := r.held } : Ret), r.cancelled)
   let siNow := specTrace evs implRets
   let siHeld := specTrace evs heldRets
@@ -190,6 +228,11 @@ def handle (input impl : Json) : R Reply := do
               else if ov ≥ 100 then addTag "a-call-outlives>=100-later-calls" tags
               else if ov ≥ 8 then addTag "a-call-outlives>=8-later-calls" tags else tags
   let tags := if rets.any (fun r => r.held != r.ret.values) then addTag "retained-results-changed" tags else tags
+  let tags := if racy then addTag "racy(look-ups against concurrent aggregation; predicate only)" tags else tags
+  let tags := if rets.any (fun r => r.stopped == 1) then addTag "runner-closed-during-a-call" tags else tags
+  let tags := if evs.length != evs0.length then addTag "runner-closed:queued-batches-failed-unseen" tags else tags
+  let tags := if rets.any (fun r => r.stopped == 2) then addTag "call-on-closed-runner" tags else tags
+  let tags := if rets.any (fun r => r.stopped == 1 && !r.ret.err && !r.ret.values.isEmpty) then addTag "runner-closed:results-of-in-flight-batches-returned" tags else tags
   let tags := match fieldD input "instant" (.bool false) with
     | .bool true => addTag "instant-pipeline(batches complete concurrently)" tags
     | _ => tags
